@@ -8,6 +8,7 @@ import (
 	"errors"
 	"fmt"
 	"os"
+	"runtime"
 	"sort"
 	"strings"
 	"sync"
@@ -21,22 +22,23 @@ import (
 const vcNode = "dtn://node/"
 
 type vcAttr struct {
-	Origin    string      `json:"origin"`
-	Dst       string      `json:"dst"`
-	Prev      string      `json:"prev"`
-	Life      string      `json:"life"`
-	Clockless bool        `json:"clockless"`
-	Tsg       int         `json:"tsg"`
-	Req       []string    `json:"req"`
-	Admin     bool        `json:"admin"`
-	RptLocal  bool        `json:"rptlocal"`
-	Hop       []int       `json:"hop"`
-	HasUnk    bool        `json:"hasunk"`
-	UnkF      []string    `json:"unkf"`
-	Copies    int         `json:"copies"`
-	Time      bool        `json:"time"`
-	Frag      bool        `json:"frag"`
-	Age       int         `json:"age"`
+	Origin    string   `json:"origin"`
+	Dst       string   `json:"dst"`
+	Prev      string   `json:"prev"`
+	Life      string   `json:"life"`
+	Clockless bool     `json:"clockless"`
+	Tsg       int      `json:"tsg"`
+	Req       []string `json:"req"`
+	Admin     bool     `json:"admin"`
+	RptLocal  bool     `json:"rptlocal"`
+	RptAlias  bool     `json:"rptalias"` // report-to is an endpoint of a local agent on another node name
+	Hop       []int    `json:"hop"`
+	HasUnk    bool     `json:"hasunk"`
+	UnkF      []string `json:"unkf"`
+	Copies    int      `json:"copies"`
+	Time      bool     `json:"time"`
+	Frag      bool     `json:"frag"`
+	Age       int      `json:"age"`
 }
 
 func (a vcAttr) unkFlags() (has bool, flags bpv7.BlockControlFlags) {
@@ -59,6 +61,7 @@ func (a vcAttr) unkFlags() (has bool, flags bpv7.BlockControlFlags) {
 // ---- mock peer -------------------------------------------------------------------------------------
 
 type vcSent struct {
+	At     time.Time // when the convergence layer was handed the bundle
 	Name   string
 	Peer   string
 	Ok     bool
@@ -77,7 +80,7 @@ type vcPeer struct {
 	fail    bool
 	starts  int
 	closes  int
-	keep    bool          // keep the bundles handed to Send as they are (not serialised)
+	keep    bool // keep the bundles handed to Send as they are (not serialised)
 	kept    []bpv7.Bundle
 	gate    chan struct{} // if set, Send waits for it (forced schedules)
 	arrived chan string
@@ -118,7 +121,7 @@ func (p *vcPeer) Send(b bpv7.Bundle) error {
 	p.mu.Lock()
 	fail, gate, arrived := p.fail, p.gate, p.arrived
 	p.mu.Unlock()
-	rec := vcSent{Peer: p.name, Ok: !fail && err == nil, Bytes: buf.Bytes()}
+	rec := vcSent{At: time.Now(), Peer: p.name, Ok: !fail && err == nil, Bytes: buf.Bytes()}
 	if err == nil {
 		if pb, perr := bpv7.ParseBundle(bytes.NewReader(buf.Bytes())); perr == nil {
 			rec.Bundle = pb
@@ -154,7 +157,9 @@ func (r *vcBarrierCla) Close() error                        { return nil }
 func (r *vcBarrierCla) Channel() chan cla.ConvergenceStatus { return r.ch }
 func (r *vcBarrierCla) Address() string                     { return "mock://barrier" }
 func (r *vcBarrierCla) IsPermanent() bool                   { return true }
-func (r *vcBarrierCla) GetEndpointID() bpv7.EndpointID      { return bpv7.MustNewEndpointID("dtn://barrier-cla/") }
+func (r *vcBarrierCla) GetEndpointID() bpv7.EndpointID {
+	return bpv7.MustNewEndpointID("dtn://barrier-cla/")
+}
 
 // ---- mock agent --------------------------------------------------------------------------------------
 
@@ -188,20 +193,20 @@ func (a *vcAgent) loop() {
 // ---- world --------------------------------------------------------------------------------------------
 
 type vcWorld struct {
-	dir    string
-	algo   string
-	budget int
-	cat    map[string]vcAttr
-	names  []string
-	peers  map[string]*vcPeer
-	c      *Core
-	ag     *vcAgent
-	bcla   *vcBarrierCla
-	base   time.Time
-	shortL time.Duration
-	orig   map[string]bpv7.Bundle // what was handed to the node, by name
-	shortExp map[string]time.Time // expiry instants of the short-lived bundles built so far
-	origB  map[string][]byte
+	dir      string
+	algo     string
+	budget   int
+	cat      map[string]vcAttr
+	names    []string
+	peers    map[string]*vcPeer
+	c        *Core
+	ag       *vcAgent
+	bcla     *vcBarrierCla
+	base     time.Time
+	shortL   time.Duration
+	orig     map[string]bpv7.Bundle // what was handed to the node, by name
+	shortExp map[string]time.Time   // expiry instants of the short-lived bundles built so far
+	origB    map[string][]byte
 
 	mu               sync.Mutex
 	sends            []vcSent
@@ -209,6 +214,7 @@ type vcWorld struct {
 	deliveredBundles []bpv7.Bundle
 	barrierCh        chan string
 	barrierN         int
+	stacks           string // goroutine dump taken when a barrier was overdue
 	seenReports      map[string]bool
 }
 
@@ -278,7 +284,7 @@ func (w *vcWorld) open() error {
 		c.cron.Unregister(j)
 	}
 	w.c = c
-	w.ag = &vcAgent{eids: []bpv7.EndpointID{bpv7.MustNewEndpointID("dtn://node/app"), bpv7.MustNewEndpointID("dtn://node/barrier")},
+	w.ag = &vcAgent{eids: []bpv7.EndpointID{bpv7.MustNewEndpointID("dtn://node/app"), bpv7.MustNewEndpointID("dtn://node/barrier"), bpv7.MustNewEndpointID("dtn://alias/inbox")},
 		recv: make(chan agent.Message), send: make(chan agent.Message), w: w}
 	go w.ag.loop()
 	c.RegisterApplicationAgent(w.ag)
@@ -320,14 +326,26 @@ func (w *vcWorld) barrierBundle() bpv7.Bundle {
 func (w *vcWorld) waitBarrier() error {
 	want := fmt.Sprintf("barrier:%d", w.barrierN)
 	to := time.After(20 * time.Second)
+	slow := false
 	for {
 		select {
 		case got := <-w.barrierCh:
 			if got == want {
+				if slow {
+					// it did arrive: the node was slow (loaded machine), not stuck; the behaviour is abandoned, not judged
+					return errors.New("timing: barrier bundle took more than 20 s")
+				}
 				return nil
 			}
 		case <-to:
-			return errors.New("deadlock: the node does not process events any more (barrier bundle not delivered within 20 s)")
+			if slow {
+				return errors.New("deadlock: the node does not process events any more (barrier bundle not delivered within 140 s)")
+			}
+			// stuck or just slow? keep the stacks of all goroutines as they are now, and give the node two more minutes
+			buf := make([]byte, 1<<20)
+			w.stacks = string(buf[:runtime.Stack(buf, true)])
+			slow = true
+			to = time.After(120 * time.Second)
 		}
 	}
 }
@@ -413,7 +431,9 @@ func (w *vcWorld) build(name string) bpv7.Bundle {
 		}
 	}
 	pb := bpv7.NewPrimaryBlock(flags, bpv7.MustNewEndpointID(dst), bpv7.MustNewEndpointID(src), cts, life)
-	if a.RptLocal {
+	if a.RptLocal && a.RptAlias {
+		pb.ReportTo = bpv7.MustNewEndpointID("dtn://alias/inbox")
+	} else if a.RptLocal {
 		pb.ReportTo = bpv7.MustNewEndpointID("dtn://node/app")
 	} else if len(a.Req) > 0 {
 		pb.ReportTo = bpv7.MustNewEndpointID("dtn://rpt/")
